@@ -36,7 +36,9 @@ vars == <<s, mon, g>>
 RECURSIVE FoldMon(_, _, _)
 FoldMon(m, evs, k) == IF k > Len(evs) THEN m ELSE FoldMon(MonStep(m, evs[k]), evs, k + 1)
 
-G0 == [calls |-> 0, flushes |-> 0, reopens |-> 0, crashes |-> 0, faults |-> 0, fid |-> 0, log |-> <<>>, len |-> 0]
+\* rej: the refused calls so far -- part of the VIEW, so that every (state, refused argument) pair is its own
+\* state and is exported (otherwise all refusals in a state would collapse into one, they change nothing)
+G0 == [calls |-> 0, flushes |-> 0, reopens |-> 0, crashes |-> 0, faults |-> 0, fid |-> 0, log |-> <<>>, len |-> 0, rej |-> <<>>]
 
 ResetEv == [e |-> "reset", run |-> 1, mode |-> "gated", seq |-> 0]
 
@@ -72,15 +74,17 @@ DoCall(op, a, step) ==
   /\ Offer(op, a)
   /\ LET x == IF op = "append" THEN CallAppend(s, a.es) ELSE CallWrite(s, op, a)
          y == Settle(x)
-     IN Take(y, <<step>> \o y.steps, [g EXCEPT !.calls = @ + 1])
+     IN \* x: whether the specification expects the call to be accepted (lets the replay stratify its sample)
+        Take(y, <<[step EXCEPT !.x = IF x.res = "ok" THEN "ok" ELSE "err"]>> \o y.steps,
+             [g EXCEPT !.calls = @ + 1, !.rej = IF x.res = "ok" THEN @ ELSE Append(@, step)])
 
-AVote    == \E v \in Votes : DoCall("vote", [v |-> v], [a |-> "vote", v |-> v])
+AVote    == \E v \in Votes : DoCall("vote", [v |-> v], [a |-> "vote", v |-> v, x |-> ""])
 AAppend  == \E id \in AppIds, p \in Payloads :
-              LET e == <<id[1], id[2], p[1], p[2]>> IN DoCall("append", [es |-> <<e>>], [a |-> "append", es |-> <<e>>])
-ATruncate == \E i \in TruncIdx : DoCall("truncate", [i |-> i], [a |-> "truncate", i |-> i])
-APurge   == \E id \in PurgeIds : DoCall("purge", [id |-> id], [a |-> "purge", id |-> id])
-ACommit  == \E id \in CommitIds : DoCall("commit", [id |-> id], [a |-> "commit", id |-> id])
-AUser    == \E u \in Users : DoCall("userdata", [u |-> u, ul |-> IF u = "~" THEN 0 ELSE ULen], [a |-> "userdata", u |-> u])
+              LET e == <<id[1], id[2], p[1], p[2]>> IN DoCall("append", [es |-> <<e>>], [a |-> "append", es |-> <<e>>, x |-> ""])
+ATruncate == \E i \in TruncIdx : DoCall("truncate", [i |-> i], [a |-> "truncate", i |-> i, x |-> ""])
+APurge   == \E id \in PurgeIds : DoCall("purge", [id |-> id], [a |-> "purge", id |-> id, x |-> ""])
+ACommit  == \E id \in CommitIds : DoCall("commit", [id |-> id], [a |-> "commit", id |-> id, x |-> ""])
+AUser    == \E u \in Users : DoCall("userdata", [u |-> u, ul |-> IF u = "~" THEN 0 ELSE ULen], [a |-> "userdata", u |-> u, x |-> ""])
 
 AFlush ==
   /\ s.up /\ g.flushes < MaxFlush /\ WorkerAlive
@@ -143,6 +147,60 @@ ChunksAbut ==
   s.up => /\ \A k \in 1..(Len(s.closed) - 1) : s.closed[k].end = s.closed[k + 1].ck
           /\ (s.closed # <<>> => s.closed[Len(s.closed)].end = s.open.ck)
 DurableIsPrefix == \A k \in 1..Len(s.fs) : s.fs[k].dur <= Len(s.fs[k].recs)
+
+-----------------------------------------------------------------------------
+(* C10 / C09 at the level of the recovery procedure: in every quiescent state, for every image obtained *)
+(* from the files by cutting / zero-filling the newest chunk (C10) or by damaging one record (C09).      *)
+
+Quiescent == s.up /\ WIdle(s) /\ s.pend = <<>>
+
+RECURSIVE FoldSt(_, _, _)
+FoldSt(st, recs, k) == IF k > Len(recs) THEN st ELSE FoldSt(ApplyState(st, recs[k].r), recs, k + 1)
+RECURSIVE FoldFiles(_, _, _)
+FoldFiles(st, files, k) == IF k > Len(files) THEN st ELSE FoldFiles(FoldSt(st, files[k].recs, 1), files, k + 1)
+
+\* the newest file keeps n complete records followed by `tail`; all other files intact
+CutNewest(fs, n, tail) ==
+  LET L == Linked(fs) IN
+  [j \in 1..Len(L) |-> IF j = Len(L) THEN [L[j] EXCEPT !.recs = SubSeq(@, 1, n), !.tail = tail, !.dur = n] ELSE L[j]]
+
+TailExact ==
+  Quiescent =>
+    LET L == Linked(s.fs)
+        f == L[Len(L)]
+    IN \A n \in 0..Len(f.recs), tail \in {"none", "part", "zero"}, tr \in BOOLEAN :
+         (n = Len(f.recs) => tail = "none") =>
+           LET img == CutNewest(s.fs, n, tail)
+               r == Recover(img, [s.cfg EXCEPT !.tr = tr], 0)
+           IN IF tr \/ tail = "none"
+              THEN /\ r.res = "ok"
+                   /\ r.s.st = FoldFiles(St0, img, 1)              \* exactly the complete records
+                   /\ LET g2 == r.s.fs[FsIdx(r.s.fs, f.ck)] IN      \* the file ends at that boundary (or is gone)
+                      (n > 0 => g2.linked /\ Len(g2.recs) = n /\ g2.tail = "none")
+              ELSE /\ r.res = "tail"                               \* truncation disabled: refuse ...
+                   /\ r.s.fs = img                                 \* ... and leave the files untouched
+
+\* one complete record (file j, record n+1) no longer decodes; class "bad": rejected value / checksum
+DamageOne(fs, j, n, cls) ==
+  LET L == Linked(fs) IN
+  [i \in 1..Len(L) |-> IF i = j THEN [L[i] EXCEPT !.recs = SubSeq(@, 1, n), !.tail = cls, !.dur = n] ELSE L[i]]
+
+CorruptionReported ==
+  Quiescent =>
+    LET L == Linked(s.fs) IN
+    \A j \in 1..Len(L) : \A n \in 0..(Len(L[j].recs) - 1) :
+      LET img == DamageOne(s.fs, j, n, "bad")
+          r == Recover(img, s.cfg, 0)
+      IN r.res # "ok" /\ r.s.fs = img            \* refused, and nothing was modified
+
+\* every middle chunk removed
+MissingChunkReported ==
+  Quiescent =>
+    LET L == Linked(s.fs) IN
+    \A j \in 2..(Len(L) - 1) :
+      LET img == [i \in 1..(Len(L) - 1) |-> IF i < j THEN L[i] ELSE L[i + 1]]
+          r == Recover(img, s.cfg, 0)
+      IN r.res = "gap" /\ r.s.fs = img
 
 \* behaviour export: one line per state in which nothing more can be scheduled
 Terminal ==
